@@ -55,7 +55,7 @@ def solve_qp(P, q, G=None, h=None, A=None, b=None, lb=None, ub=None, solver=None
                 slack = [-cand[i] - hv0[i] for i in range(n)]  # (G v - h)_i <= 0
                 f = z3.And(*[(mu_c[i] >= 0).z() for i in range(n)], *[(slack[i] <= 0).z() for i in range(n)],
                            *[(mu_c[i] * slack[i]).eqz(0) for i in range(n)])
-                if symx.space().check(z3.Not(f), timeout_ms=5000) == "unsat":
+                if symx.space().proved(f, timeout_ms=5000):
                     symx.space().memo[mk] = list(cand)
                     r = np.ndarray._make(list(cand), (n,), np.float64)
                     log("kernel", "solve_qp", (P, q, G, h, solver), r, "candidate")
